@@ -86,6 +86,20 @@ CHECKS = {
             "model fed that tape reproduces every answer of long query sequences bit for bit; oracle: twin/other-seed worlds, "
             "orthonormality, sums, bounds.",
             "proof (draw bookkeeping by induction, Arvo by nsatz over Reals) + bit-exact correspondence on the mt19937 tape + twin-world oracle", "4 C15"),
+    "C05": ("Theorems (Properties_C05.v): [S] a model returns the old value outside its own range and apply_operation(op, old, "
+            "closed form) inside it, with the sentinel rule 'negative = adiabatic/global value' visible in the dispatch; [R] the "
+            "closed forms are the documented expressions (linear between the local top and bottom, Chapman, adiabat, half-space "
+            "erfc profile) and the ridge distance uses the nearest point of the ridge segment. Tie: every area-feature and plume "
+            "model vs the implementation bit for bit (incl. the 100-term plate series and the ridge/transform-fault logic); "
+            "oracle: independent Python transcription of the documentation, relative 1e-9. Slab/fault models: C06/C20.",
+            "proof of closed forms over Reals + dispatch theorem + bit-exact correspondence + documented-closed-form oracle", "4 C05"),
+    "C20": ("Theorems (Properties_C20.v, over reals, erfc laws as premises): half-space cooling lies between top and bottom "
+            "temperature, equals the top temperature at depth 0, is non-decreasing in depth and non-increasing in age; linear "
+            "models attain their boundary temperatures and stay between them; the plate-model series vanishes at depth 0 and max "
+            "depth (boundary temperatures attained). Not proved: two-sided bounds of the truncated series (known finding D15 for "
+            "kappa*age/max_depth^2 < 1e-3), the mass-conserving slab envelope. Tie: bit-exact correspondence of the cooling models; "
+            "oracle: depth and age ladders on the implementation.",
+            "proof of envelopes over Reals (erfc laws as premises) + bit-exact correspondence + ladder oracle", "4 C20"),
 }
 
 NOT_YET = {
